@@ -354,6 +354,10 @@ def _verify_function(self, cname):
     nstart = len(self.obls)
     self.cur_func = cname
     self.abstract = tuple(c.abstract)
+    self.total_fdiv = bool(c.total_float_division)
+    if self.total_fdiv:
+        self.assumptions_used.add("in %s floating-point division is total (IEEE: x/0 is inf or nan, no trap): no division-safety "
+                                  "obligations; a quotient by zero is an unspecified real" % cname)
     if c.abstract:
         self.assumptions_used.add("in %s the operations %s are uninterpreted functions (sound abstraction: the proof uses no property of them)"
                                   % (cname, ", ".join(c.abstract)))
@@ -487,6 +491,10 @@ def _verify_variant(self, f, c, var, vi, info):
         for name, clause in c.requires:
             self.assume(st, self.spec_eval(clause, st, fr, c.name + ":" + name))
             self.assume(entry, st.pc[-1]) if st.pc else None
+            if st.dead:
+                break
+        if st.dead:
+            continue    # this case split contradicts a precondition outright
         entry.pc = list(st.pc)
         # vacuity guard: the hypotheses must be satisfiable (quantifier-free part) 
         if not self.feasible(st, True if not st.pc else z3.BoolVal(True)):
